@@ -11,6 +11,8 @@ from exactly_lib.test_case.phases.setup.settings_handler import SetupSettingsHan
 from exactly_lib.util.file_utils.misc_utils import preserved_cwd
 from exactly_lib.util.name_and_value import NameAndValue
 from exactly_lib.util.symbol_table import SymbolTable
+from exactly_lib.util import verif_trace
+import os
 
 MkSetupSettingsHandler = Callable[[OptionalEnvVarsDict], SetupSettingsHandler]
 
@@ -62,3 +64,6 @@ def execute(test_case: TestCase,
             if ret_val is not None and ret_val.has_sds:
                 shutil.rmtree(str(ret_val.sds.root_dir),
                               ignore_errors=True)
+                verif_trace.emit('sds-remove', lambda: dict(exists_after=ret_val.sds.root_dir.exists()))
+        verif_trace.emit('partial-end', lambda: dict(cwd=os.getcwd(),
+                                                     has_sds=(ret_val is not None and ret_val.has_sds)))
